@@ -76,6 +76,10 @@ func simplifyCurve(curve Path,
 	if len(curve) == 0 {
 		return nil
 	}
+	if len(curve) < 3 {
+		// Nothing can be removed (and the scan below needs three vertices to terminate).
+		return append(out, curve...)
+	}
 
 	i := 0
 	for {
